@@ -30,12 +30,48 @@ def run(ctx):
     _r9(ctx)
     _r10(ctx)
     _r11(ctx)
+    _r12(ctx)
     # a panic in the task that serves a TCP upstream stalls every query on that connection: the oneshot replies it unwraps are
     # safe only while their receivers are awaited without a deadline (the rule is C05's side rule S4, evaluated here as well)
     from . import c05
     c05.side_rules_4(ctx, cg)
     # shared clause: an upstream reply reaches the query it answers (waiters keyed by query id)
     ctx.include("C03", rules=("R8", "R3"))
+
+
+def _r12(ctx):
+    """the wait for an upstream UDP reply ends when an attempt completes, whichever way: in the retry loop of `send_udp` the arm that
+    receives a finished attempt (`Option<Result<(Duration, DNSPkt), Error>>` out of the select) never leads back to the loop's head.
+    (That the *schedule* is bounded in time is not decided; this is the structural fact the bound rests on: failed attempts leave
+    the set of outstanding ones, so a loop that keeps going after a failure is not stopped by the attempt counter either.)"""
+    P = ctx.P
+    n = 0
+    for b in P.bodies.values():
+        if not (b.id.startswith("erbium::dns::outquery::OutQuery::send_udp") and b.kind == "coroutine"):
+            continue
+        cfg = cfg_of(b)
+        heads = {}
+        for e in cfg.back_edges():
+            heads.setdefault(e[1], set()).update(cfg.natural_loop(e))
+        for bb, idx, st in b.stmts():
+            if not (len(st["p"]) == 1 and "rv" in st and st["rv"]["k"] == "use" and op_place(st["rv"]["op"]) and len(op_place(st["rv"]["op"])) == 3):
+                continue
+            ty = b.local_ty(st["p"][0]).replace(" ", "")
+            if not ty.startswith("std::option::Option<std::result::Result<(std::time::Duration,"):
+                continue
+            # the loops this arm stands in: heads that dominate it (the arm itself is outside the natural loop exactly when it never
+            # leads back, which is what is being asked)
+            enclosing = [h for h in heads if cfg.dominates(h, bb)]
+            if not enclosing:
+                continue
+            n += 1
+            ctx.saw(b)
+            back = cfg.reachable_from(bb)
+            ctx.check(not any(h in back for h in enclosing), "R12", "a-completed-attempt-ends-the-wait", ctx.where(b, st["sp"]),
+                      "from the arm that receives a finished attempt the retry loop's head is reachable again: a failed transmission then "
+                      "does not end the query, and since failed attempts leave the set the attempt counter never stops the loop either")
+    if ctx.config in ("default", "dns"):
+        ctx.floor("R12", "completed-attempt arms in the UDP retry loop", n, 1)
 
 
 def _r11(ctx):
